@@ -43,25 +43,29 @@ func makeOverlayTags(yields bool, tags string) string {
 }
 
 type schedOut struct {
-	Idx        uint64           `json:"run_index"`
-	Seed       uint64           `json:"seed"`
-	Hash       string           `json:"hash"`
-	SwitchHash string           `json:"switch_hash"`
-	Violation  *violation       `json:"violation"`
-	Trace      json.RawMessage  `json:"trace"`
-	Stats      map[string]int64 `json:"stats"`
+	Idx         uint64           `json:"run_index"`
+	Seed        uint64           `json:"seed"`
+	Hash        string           `json:"hash"`
+	SwitchHash  string           `json:"switch_hash"`
+	Violation   *violation       `json:"violation"`
+	Trace       json.RawMessage  `json:"trace"`
+	Stats       map[string]int64 `json:"stats"`
+	SwitchSites []int            `json:"switch_sites"`
+	SiteTotals  [3]int           `json:"site_totals"`
 }
 
 type schedBatch struct {
-	runs       int
-	stats      map[string]int64
-	switchSeqs map[string]bool
-	hashes     map[string]bool
-	violations []*schedOut
-	races      []raceHit
-	err        string
-	samples    []json.RawMessage
-	wall       time.Duration
+	switchSites map[int]bool
+	siteTotals  [3]int
+	runs        int
+	stats       map[string]int64
+	switchSeqs  map[string]bool
+	hashes      map[string]bool
+	violations  []*schedOut
+	races       []raceHit
+	err         string
+	samples     []json.RawMessage
+	wall        time.Duration
 }
 
 type raceHit struct {
@@ -82,7 +86,7 @@ func raceReport(dir string, prefix string) string {
 
 // runSchedBatch runs indices [0,n), one fresh process per run.
 func runSchedBatch(bin string, seed uint64, n, workers int, deadline time.Time, race, small bool) *schedBatch {
-	b := &schedBatch{stats: map[string]int64{}, switchSeqs: map[string]bool{}, hashes: map[string]bool{}}
+	b := &schedBatch{stats: map[string]int64{}, switchSeqs: map[string]bool{}, hashes: map[string]bool{}, switchSites: map[int]bool{}}
 	start := time.Now()
 	jobs := make(chan int, 1024)
 	go func() {
@@ -147,6 +151,10 @@ func runSchedBatch(bin string, seed uint64, n, workers int, deadline time.Time, 
 						b.stats[k] += v
 					}
 					b.switchSeqs[so.SwitchHash] = true
+					for _, x := range so.SwitchSites {
+						b.switchSites[x] = true
+					}
+					b.siteTotals = so.SiteTotals
 					b.hashes[so.Hash] = true
 					if so.Violation != nil {
 						b.violations = append(b.violations, &so)
@@ -450,6 +458,8 @@ func checkC18(ca *checkArgs) int {
 			"distinct_switch_sequences_plain": len(pb.switchSeqs),
 			"distinct_switch_sequences_race":  len(rb.switchSeqs),
 			"distinct_event_logs":             len(pb.hashes),
+			"distinct_sites_where_a_context_switch_happened": len(pb.switchSites),
+			"yield_sites_total_hot_sync":                     pb.siteTotals,
 			"fault_kinds_fired": map[string]int64{
 				"preempt":                                          pb.stats["switches"] + rb.stats["switches"],
 				"preempt_inside_first_use_code":                    pb.stats["preempt_inside_first_use_code"] + rb.stats["preempt_inside_first_use_code"],
